@@ -158,9 +158,9 @@ def nnx_part(chk):
   class Q(nnx.Variable):
     pass
 
-  types = {'V': nnx.Variable, 'P': nnx.Param, 'P2': P2, 'Q': Q}
+  types = {'V': nnx.Variable, 'P': nnx.Param, 'P2': P2, 'Q': Q, 'VS': nnx.VariableState}
   items = {1: (('a', 'x'), 'P', ''), 2: (('a', 'y'), 'P2', 't1'), 3: (('b', 'x'), 'Q', ''),
-           4: (('b', 'y'), 'Q', 't1'), 5: (('c',), 'P', 't1'), 6: (('a', 'b', 'z'), 'V', '')}
+           4: (('b', 'y'), 'Q', 't1'), 5: (('c',), 'P', 't1'), 6: (('a', 'b', 'z'), 'V', ''), 7: (('r',), 'raw', '')}
 
   def mkvar(i):
     path, t, tag = items[i]
@@ -183,7 +183,7 @@ def nnx_part(chk):
     if k == 'seq': return (list if form % 2 else tuple)(subs)
     raise ValueError(t)
 
-  flat = {items[i][0]: mkvar(i).to_state() for i in items}
+  flat = {items[i][0]: (mkvar(i).to_state() if items[i][1] != 'raw' else jnp.array(7, jnp.int32)) for i in items}
   state = nnx.State.from_flat_path(flat)
   path_id = {items[i][0]: i for i in items}
 
@@ -201,15 +201,11 @@ def nnx_part(chk):
   res = tlc.require_ok(tlc.run('NnxFilters', cfg, workers=1))
   chk.add_tlc(res, 'NnxFilters')
   if chk.thorough:
-    res2 = tlc.require_ok(tlc.run('NnxFilters', 'NnxFilters_quick.cfg', workers=1))
+    res2 = tlc.require_ok(tlc.run('NnxFilters', 'NnxFilters_thorough2.cfg', workers=1))
     chk.add_tlc(res2, 'NnxFilters rich')
     cases = res['exports'] + res2['exports']
   else:
     cases = res['exports']
-    rnd = random.Random(chk.seed)
-    single = [c for c in cases if len(c['fs']) == 1]
-    multi = [c for c in cases if len(c['fs']) > 1]
-    cases = single + rnd.sample(multi, min(len(multi), 5000))
   for idx, case in enumerate(cases):
     fs = [build(t, idx) for t in case['fs']]
     key = 'C14:nnx:' + '|'.join(nnx_term_str(t) for t in case['fs'])
@@ -242,8 +238,11 @@ def nnx_part(chk):
     run('State.split', lambda: state.split(*fs), case['invalid'] or rest_nonempty, as_list)
     run('State.filter', lambda: state.filter(*fs), case['invalid'], as_list)
     if idx % 4 == 0 or chk.thorough:
+      # module-level APIs: the raw leaf (id 7) is not part of a module's state
+      want = [[i for i in g if i != 7] for g in exp[:-1]]
+      rest_m = bool([i for i in exp[-1] if i != 7])
       run('nnx.state', lambda: nnx.state(root, *fs), case['invalid'], as_list)
-      run('nnx.split', lambda: nnx.split(root, *fs)[1:], case['invalid'] or rest_nonempty, as_list)
+      run('nnx.split', lambda: nnx.split(root, *fs)[1:], case['invalid'] or rest_m, as_list)
     chk.count(key)
   chk.sample({'spec': 'NnxFilters', 'case': cases[len(cases) // 2]})
   # lossless: merging the groups gives back the state
